@@ -212,9 +212,40 @@ def spellings_stage(Rn, tier, rng):
         Rn.record(line + " spelled " + name, impl, m, s_, len(R) >= 2, "spelling/" + name, py=f"RaggedArray({R})[{sp!r}]   (plain spelling: {idx!r})")
 
 
+def ufunc_origin_stage(Rn, tier, rng):
+    """the array under the index is the RESULT of a ufunc / operator (a + 0, -(-a), maximum(a, a), a * 1): the same reads, the same refusals
+    as on the freshly built array (element pairs in and out of range, rows, row + column selectors)"""
+    import numpy as np
+    from npstructures import RaggedArray
+    def canon(x):
+        if isinstance(x, RaggedArray): return [2, x.tolist()]
+        if isinstance(x, np.ndarray): return [1, x.tolist()] if x.ndim else [0, x.item()]
+        return [0, int(x)]
+    origins = [("a + 0", lambda a: a + 0), ("-(-a)", lambda a: -(-a)), ("np.maximum(a, a)", lambda a: np.maximum(a, a)), ("(a * 1)[:]", lambda a: (a * 1)[:])]
+    cases = []
+    for ls in SHAPES:
+        R = []; c = 0
+        for l in ls: R.append(list(range(c, c + l))); c += l
+        nr = len(R); mx = max(ls) if ls else 0
+        idxs = [(i, j) for i in range(-nr - 1, nr + 1) for j in range(-mx - 1, mx + 1)]
+        idxs += [i for i in range(-nr - 1, nr + 1)] + [(slice(None), j) for j in range(-mx - 1, mx + 1)] + [(slice(1, None), slice(None, None, -1)), ([0, nr - 1] if nr else [], slice(1, None))]
+        for idx in idxs:
+            for oname, of in origins:
+                cases.append((R, idx, oname, of))
+    lines = ["getitem " + show(R) + " " + show(enc_index(idx)) for R, idx, _, _ in cases]
+    out = oracle(lines)
+    for (R, idx, oname, of), line, o in zip(cases, lines, out):
+        if o.startswith("ERR"): m = s_ = "oracle-error: " + o[:80]
+        else: m, s_ = parse(o)
+        sp = tuple(np.array(x) if isinstance(x, list) else x for x in idx) if isinstance(idx, tuple) else idx
+        impl = guarded(lambda: canon(of(RaggedArray(R, dtype=int))[sp]))
+        Rn.record(line + " on " + oname, impl, m, s_, len(R) >= 2, "ufunc-result/" + oname, py=f"a = RaggedArray({R}); ({oname})[{idx!r}]")
+
+
 def run(Rn, tier, rng):
     from harness import c06
     spellings_stage(Rn, tier, rng)
+    ufunc_origin_stage(Rn, tier, rng)
     c06._run_chains(Rn, tier, rng)          # the same index grammar on lazily derived arrays ("for every ragged array")
     same_object_stage(Rn, tier, rng)
     items, lines, impl = collect(tier, rng)
